@@ -810,6 +810,21 @@ def c20(ctx):
     ctx.assumptions = ["data-race freedom is observed by the Go race detector on the schedules that occurred, not proved",
                        "every concurrent call gets its own copy of its input (the statement speaks of distinct inputs)"]
     ctx.build(race=True)
+    ctx.build()
+    # the sequential objects the concurrent calls must be equivalent to (Versions.tla): every transition of the
+    # registry / version provider / namespace provider model is replayed on the real objects
+    deep = ctx.tier != "quick"
+    _, vs = ctx.tlc_pipe("MC_Versions.tla", "MC_Versions.cfg", ["versions-replay"], workers=4,
+                         overrides={"MaxReg": 2} if deep else None,
+                         label="Versions.tla: registry (Register / CreateClientVersion, version matching)")
+    ctx.tlc_pipe("MC_Versions.tla", "MC_Versions_prov.cfg", ["versions-replay"], workers=4,
+                 overrides={"MaxVers": 3, "MaxProv": 2} if deep else None,
+                 label="Versions.tla: version provider (New / Current / Get) and namespace provider")
+
+    def vwrong(rec):
+        rec["ok"] = not rec["ok"]
+
+    ctx.negctl_replay(["versions-replay"], vs["_first_edge"], vwrong)
     ov = {"Procs": "{1, 2, 3}", "MaxCalls": 1} if ctx.tier == "quick" else {"Procs": "{1, 2, 3}", "MaxCalls": 2}
     ctx.tlc_check("Registry.tla", "MC_Registry.cfg", overrides=ov, label="registry model, all interleavings", timeout=3000)
     if ctx.tier == "quick":
